@@ -25,7 +25,7 @@ Next == \/ /\ l = 0 /\ sh = 0
 
 AllRules == {"C02.NoPanic", "C02.Json", "C02.Total", "C02.TotalHM", "C02.Now", "C02.Pwt",
              "C12.NoPanic", "C12.Rows", "C12.Sums", "C12.Today", "C12.TodayNow", "C12.Pwt",
-             "C13.NoPanic", "C13.Select", "C13.Sort",
+             "C13.NoPanic", "C13.Select", "C13.Sort", "C13.Print",
              "C14.NoPanic", "C14.JsonTags", "C14.Totals",
              "C17.Now", "C17.TodayNow",
              "C18.NoPanic", "C18.Strip", "C18.Plain", "C18.Widths",
@@ -132,6 +132,7 @@ PwtOK(run, R) ==
 (***************************************************************************)
 (* filters                                                                  *)
 (***************************************************************************)
+NoQueryJson == [at |-> -1, since |-> -1, until |-> -1, tags |-> <<>>, etype |-> ""]
 QueryOf(q) == [at |-> q.at, since |-> q.since, until |-> q.until,
                tags |-> {<<q.tags[i][1], q.tags[i][2]>> : i \in 1..Len(q.tags)}, etype |-> q.etype]
 (* what is compared of a record: date, per entry its summary and minutes *)
@@ -193,9 +194,16 @@ Holds(r, ev, PD) ==
                                 j.code = 0 /\ \A k \in 1..Len(cl.recs) : j.json.records[k].total_mins = RecTotal(cl.recs[k])
             ELSE t.code # 0 /\ (HasRun(o, "json:now") => RunById(o, "json:now").code # 0)
       [] r \in {"C02.Pwt", "C12.Pwt"} -> live /\ HasRun(o, "pwt") /\ R # <<>> => PwtOK(RunById(o, "pwt"), R)
-      [] r = "C12.Rows" -> live => \A i \in 1..Len(o.runs) : StartsWith(o.runs[i].id, "report:") /\ R # <<>> => ReportOK(o.runs[i], R)
+      [] r = "C12.Rows" -> live =>
+            \A i \in 1..Len(o.runs) : StartsWith(o.runs[i].id, "report:") =>
+                LET Rf == Filter(R, QueryOf(c.runs[i].q))     \* the report is over the filtered data ...
+                    cl == CloseAll(Rf, now)                   \* ... with open ranges closed if --now is given
+                IN  IF c.runs[i].now
+                    THEN (IF cl.ok THEN (Rf # <<>> => ReportOK(o.runs[i], cl.recs)) ELSE o.runs[i].code # 0)
+                    ELSE Rf # <<>> => ReportOK(o.runs[i], Rf)
       [] r = "C12.Sums" -> live /\ HasRun(o, "total:plain") =>
-            \A i \in 1..Len(o.runs) : StartsWith(o.runs[i].id, "report:") /\ R # <<>> /\ o.runs[i].report.has_grand =>
+            \A i \in 1..Len(o.runs) : StartsWith(o.runs[i].id, "report:") /\ R # <<>> /\ o.runs[i].report.has_grand
+                                       /\ c.runs[i].q = NoQueryJson /\ ~c.runs[i].now =>
                 o.runs[i].report.grand[1] = RunById(o, "total:plain").total.total
       [] r = "C12.Today" -> live /\ HasRun(o, "today") => TodayOK(RunById(o, "today"), R, now)
       [] r \in {"C12.TodayNow", "C17.TodayNow"} -> live /\ HasRun(o, "today:now") =>
@@ -207,6 +215,13 @@ Holds(r, ev, PD) ==
                 StartsWith(run.id, "json") /\ ~StartsWith(run.id, "json:sort") /\ ~StartsWith(run.id, "json:now") =>
                     /\ run.code = 0 /\ run.json.wellformed
                     /\ JShapesOf(run.json.records) = ShapesOf(Filter(R, QueryOf(c.runs[i].q)))
+      [] r = "C13.Print" -> live =>
+            \A i \in 1..Len(o.runs) :
+                LET run == o.runs[i] IN
+                StartsWith(run.id, "print:") /\ run.id # "print:combo" =>
+                    LET sel == Filter(Recs(PD), QueryOf(c.runs[i].q)) IN
+                    /\ run.code = 0
+                    /\ run.out = IF sel = <<>> THEN "" ELSE LF \o PrintDoc(sel) \o LF
       [] r = "C13.Sort" -> live =>
             \A i \in 1..Len(o.runs) :
                 LET run == o.runs[i] IN
